@@ -81,6 +81,10 @@ typedef struct private_state {
   bitrate_manager_state bms;
 
   ogg_int64_t sample_count;
+
+  int lapout_done; /* synthesis: the pcm buffer has been made contiguous
+                      by vorbis_synthesis_lapout since the last block
+                      was added; doing it again would shift it twice */
 } private_state;
 
 /* codec_setup_info contains all the setup information specific to the
